@@ -87,7 +87,6 @@ PROPS["C15"] = {
     "level_note": "Assumed dependency contracts (external crates): base64 decode/encode inverse and '='-free alphabet, nada decode_with_limit bounded and inverse of encode, zstd decompress bounded by the buffer and inverse of compress, frame header consistent with content, alloy Bytes::from_hex a function of the text. Not covered: the encoder Base64Bytes::from_bytes body (chooses the shortest of three encodings through the same crates), handlers passing the bytes on unchanged.",
     "assumptions": [
         "base64 / nada / zstd-safe / hex crates behave as inverse pairs with the stated bounds (assumed, listed in the unit)",
-        "Base64Bytes::from_bytes (encoder) body not under contract; the round trip is proved for the published format it emits",
     ],
 }
 
